@@ -410,6 +410,13 @@ void execute_assignment(StatementExecutor *executor, Interpreter &interpreter,
                 throw std::runtime_error("Not a struct array: " + array_name);
             }
 
+            // constチェック (the element variable itself carries no const)
+            if (array_var->is_const) {
+                throw std::runtime_error(
+                    "Cannot assign to element of const struct array: " +
+                    array_name);
+            }
+
             // 構造体リテラルを配列要素に代入
             // assign_struct_literal()が配列要素変数とメンバー変数を自動的に作成する
             interpreter.assign_struct_literal(element_name, node->right.get());
